@@ -851,3 +851,80 @@ func VerifC01_HigherOrder() {
 	}
 	zzverif.Reach("higher-order")
 }
+
+// switch: the first case whose value equals the subject runs, alone (no fall
+// through); default runs when none does; case values are expressions; an int
+// subject equals a float case of the same value; a `$` inside a case on a name
+// visible outside updates the outer variable (spec 3.4); return inside a case
+// leaves the route
+const srcSwitch = `
+@ POST /t {
+  $ x = input.x
+  $ y = input.y
+  $ r = 0
+  $ seen = 0
+  switch x {
+    case 1 {
+      r = r + 10
+    }
+    case y {
+      $ seen = 5
+      r = r + 20 + seen
+    }
+    case 1 + 1 {
+      r = r + 40
+    }
+    case 3 {
+      > 0 - 1
+    }
+    default {
+      r = r + 80
+    }
+  }
+  switch x * 1.0 {
+    case 2 {
+      r = r + 100
+    }
+    case "2" {
+      r = r + 200
+    }
+  }
+  switch y {
+    case 0 - 4 {
+      r = r + 1000
+    }
+  }
+  > r + seen
+}
+`
+
+func VerifC01_Switch() {
+	x, y := int64(zzverif.IntRange("x", -4, 4)), int64(zzverif.IntRange("y", -4, 4))
+	got, ok := runSource(srcSwitch, map[string]interface{}{"x": x, "y": y}, nil)
+	var want int64
+	switch {
+	case x == 1:
+		want = 10
+	case x == y:
+		want = 25
+	case x == 2:
+		want = 40
+	case x == 3:
+		want = -1
+	default:
+		want = 80
+	}
+	if !(x == 3 && x != y) {
+		if x == y && x != 1 {
+			want += 5 // seen
+		}
+		if x == 2 {
+			want += 100
+		}
+		if y == -4 {
+			want += 1000
+		}
+	}
+	zzverif.Assert(ok && got == interface{}(want), "switch: executes other statements than the first matching case (or default) alone")
+	zzverif.Reach("switch")
+}
